@@ -183,6 +183,12 @@ CLAIMED = {
             "For every behaviour the hyperframe / hpack contracts allow, h2's own code raises "
             "only ProtocolError (or returns events); all field values, lengths and header bytes "
             "within the stated bounds.", "7/C17"),
+    'C21': ("the real FrameBuffer / receive_data executed symbolically on an abstract wire "
+            "(frames with symbolic body lengths and solver-chosen parse outcomes) delivered whole "
+            "and cut at two symbolic positions to two endpoints built from the same witness; real "
+            "preface bytes cut at every position; data_to_send with solver-enumerated amounts",
+            "Same error (type, code) or same events and same emitted frames for all body lengths "
+            "0..2^24-1 and all cut positions; read amounts partition the output buffer.", "7/C21"),
 }
 
 NOT_YET = {}
